@@ -129,7 +129,7 @@ PROPS["C18"] = {
     ],
     "legs": [
         {"test": "TestC18Shapes", "kind": "enum", "quick": {"shards": 4}, "thorough": {"shards": 16}},
-        {"test": "TestC18Random", "kind": "rapid", "quick": {"checks": 10000, "shards": 2}, "thorough": {"checks": 100000, "shards": 8}},
+        {"test": "TestC18Random", "kind": "rapid", "quick": {"checks": 10000, "shards": 2}, "thorough": {"checks": 300000, "shards": 8}},
     ],
     "min_nontrivial": {"quick": 5000, "thorough": 50000},
 }
@@ -204,7 +204,7 @@ PROPS["C04"] = {
     "legs": [
         {"test": "TestC04Arith", "kind": "enum", "quick": {"shards": 4}, "thorough": {"shards": 16}},
         {"test": "TestC04Bool", "kind": "enum", "quick": {"shards": 2}, "thorough": {"shards": 4}},
-        {"test": "TestC04Sampled", "kind": "rapid", "quick": {"checks": 8000, "shards": 2}, "thorough": {"checks": 100000, "shards": 12}},
+        {"test": "TestC04Sampled", "kind": "rapid", "quick": {"checks": 8000, "shards": 2}, "thorough": {"checks": 300000, "shards": 12}},
     ],
     "min_nontrivial": {"quick": 5000, "thorough": 50000},
 }
@@ -230,7 +230,7 @@ PROPS["C15"] = {
                     "redundant parentheses are never put directly around the list-valued right operand of IN (`x in (f())` is a one-element list by the grammar)"],
     "legs": [
         {"test": "TestC15Sequences", "kind": "enum", "quick": {"shards": 2}, "thorough": {"shards": 16}},
-        {"test": "TestC15Trees", "kind": "rapid", "quick": {"checks": 15000, "shards": 4}, "thorough": {"checks": 200000, "shards": 12}},
+        {"test": "TestC15Trees", "kind": "rapid", "quick": {"checks": 15000, "shards": 4}, "thorough": {"checks": 400000, "shards": 12}},
         {"test": "TestC15Statements", "kind": "rapid", "quick": {"checks": 8000, "shards": 2}, "thorough": {"checks": 150000, "shards": 8}},
         {"test": "TestC15Names", "kind": "enum", "quick": {"shards": 1}, "thorough": {"shards": 1}},
     ],
@@ -294,8 +294,8 @@ PROPS["C14"] = {
     "legs": [
         {"test": "TestC14Positions", "kind": "enum", "quick": {"shards": 1}, "thorough": {"shards": 1}},
         {"test": "TestC14Matrix", "kind": "enum", "quick": {"shards": 1}, "thorough": {"shards": 1}},
-        {"test": "TestC14Mutants", "kind": "rapid", "quick": {"checks": 12000, "shards": 3}, "thorough": {"checks": 150000, "shards": 8}},
-        {"test": "TestC14WellTyped", "kind": "rapid", "quick": {"checks": 12000, "shards": 3}, "thorough": {"checks": 150000, "shards": 8}},
+        {"test": "TestC14Mutants", "kind": "rapid", "quick": {"checks": 12000, "shards": 3}, "thorough": {"checks": 400000, "shards": 8}},
+        {"test": "TestC14WellTyped", "kind": "rapid", "quick": {"checks": 12000, "shards": 3}, "thorough": {"checks": 400000, "shards": 8}},
     ],
     "min_nontrivial": {"quick": 5000, "thorough": 100000},
 }
@@ -385,7 +385,7 @@ PROPS["C09"] = {
             "tuples with equal concatenation); distinct = distinct (query, store, batch size).",
     "assumptions": COMMON_ASSUMPTIONS,
     "legs": [
-        {"test": "TestC09", "kind": "rapid", "quick": {"checks": 12000, "shards": 3, "shrink": "15s"}, "thorough": {"checks": 120000, "shards": 10}},
+        {"test": "TestC09", "kind": "rapid", "quick": {"checks": 12000, "shards": 3, "shrink": "15s"}, "thorough": {"checks": 300000, "shards": 10}},
         {"test": "TestC09Collide", "kind": "rapid", "quick": {"checks": 8000, "shards": 2, "shrink": "15s"}, "thorough": {"checks": 80000, "shards": 6}},
         {"test": "TestC09DynamicGroups", "kind": "rapid", "quick": {"checks": 5000, "shards": 1}, "thorough": {"checks": 80000, "shards": 4}},
     ],
@@ -414,7 +414,7 @@ PROPS["C10"] = {
     "assumptions": COMMON_ASSUMPTIONS,
     "legs": [
         {"test": "TestC10Pools", "kind": "enum", "quick": {"shards": 2}, "thorough": {"shards": 2}},
-        {"test": "TestC10Sampled", "kind": "rapid", "quick": {"checks": 15000, "shards": 3}, "thorough": {"checks": 200000, "shards": 12}},
+        {"test": "TestC10Sampled", "kind": "rapid", "quick": {"checks": 15000, "shards": 3}, "thorough": {"checks": 400000, "shards": 12}},
         {"test": "TestC10Chunks", "kind": "rapid", "quick": {"checks": 6000, "shards": 3}, "thorough": {"checks": 100000, "shards": 8}},
     ],
     "min_nontrivial": {"quick": 5000, "thorough": 100000},
@@ -484,7 +484,7 @@ PROPS["C13"] = {
             "distinct = distinct (statement, store, batch size, mode, fault index).",
     "assumptions": COMMON_ASSUMPTIONS,
     "legs": [
-        {"test": "TestC13Faults", "kind": "rapid", "quick": {"checks": 1500, "shards": 4, "shrink": "15s"}, "thorough": {"checks": 15000, "shards": 16}},
+        {"test": "TestC13Faults", "kind": "rapid", "quick": {"checks": 1500, "shards": 4, "shrink": "15s"}, "thorough": {"checks": 40000, "shards": 16}},
         {"test": "TestC13Rejected", "kind": "rapid", "quick": {"checks": 2000, "shards": 1}, "thorough": {"checks": 50000, "shards": 4}},
     ],
     "min_nontrivial": {"quick": 5000, "thorough": 100000},
@@ -508,7 +508,7 @@ PROPS["C19"] = {
             "statements; distinct = distinct (statement set, modes, GOMAXPROCS, store).",
     "assumptions": COMMON_ASSUMPTIONS + ["the Go race detector's happens-before analysis is trusted"],
     "legs": [
-        {"test": "TestC19", "kind": "rapid", "race": True, "quick": {"checks": 400, "shards": 4, "shrink": "10s"}, "thorough": {"checks": 4000, "shards": 8}},
+        {"test": "TestC19", "kind": "rapid", "race": True, "quick": {"checks": 400, "shards": 4, "shrink": "10s"}, "thorough": {"checks": 10000, "shards": 8}},
     ],
     "min_nontrivial": {"quick": 200, "thorough": 5000},
     "timeout": {"quick": 900, "thorough": 7200},
